@@ -96,6 +96,27 @@ def expand_flows(flows, limit=64, deep=False):
     return out
 
 
+def under_pc(pc, v):
+    """(pc', v') with every condition and the value simplified under the conditions that precede it on the path"""
+    facts, newpc = [], []
+    for c in pc:
+        for a, t in facts:
+            c = Tm.assume(c, a, t)
+        if c is Tm.TRUE:
+            continue
+        if c.op == "not":
+            a, t = c.args[0], False
+        elif c.op == "ne":
+            a, t = Tm.eq(*c.args), False
+        else:
+            a, t = c, True
+        facts.append((a, t))
+        newpc.append(c)
+    for a, t in facts:
+        v = Tm.assume(v, a, t)
+    return tuple(newpc), v
+
+
 def split_result(rep, cfg, out):
     """for a Result-returning routine: (list of (pc, errvalue), list of (pc, okvalue))"""
     errs, oks, other = [], [], []
